@@ -227,3 +227,11 @@ Proof.
       exact (sqrt_mueller_correct p amp draws x Hp E16 Hres H2 Hdr Hx). }
     intros Hx Hm1 Hm2. rewrite <- Hamp. exact (tonelli_sound p amp draws x Hx Hm1 Hm2).
 Qed.
+
+(* the hypotheses of the branch theorems are satisfiable *)
+Example atkin_hyps_13 : prime 13 /\ 13 mod 8 = 5 /\ cong 13 (3 ^ ((13 - 1) / 2)) 1 /\ cong 13 (2 ^ ((13 - 1) / 2)) (-1).
+Proof. split; [apply prime_intro; [lia|]; intros n Hn; assert (Hc : n = 1 \/ n = 2 \/ n = 3 \/ n = 4 \/ n = 5 \/ n = 6 \/ n = 7 \/ n = 8 \/ n = 9 \/ n = 10 \/ n = 11 \/ n = 12) by lia;
+  repeat (destruct Hc as [->|Hc]; [apply Zgcd_1_rel_prime; reflexivity|]); subst; apply Zgcd_1_rel_prime; reflexivity|].
+  split; [reflexivity|]. split; [exists 56; reflexivity | exists 5; reflexivity]. Qed.
+Example mueller_hyps_41 : 41 mod 16 = 9 /\ cong 41 (2 ^ ((41 - 1) / 2)) 1 /\ cong 41 (3 ^ (41 - 1)) 1.
+Proof. split; [reflexivity|]. split; [exists 25575; reflexivity | exists 296528425830656800; reflexivity]. Qed.
